@@ -71,6 +71,38 @@ func TestVerifC16(t *testing.T) {
 			}
 			c.Gateways[gi].Listeners = ls
 		}
+		// one case in four: two HTTPS listeners on one port with nested wildcard hostnames and different Secrets, in
+		// either order, and a route without sectionName whose hostname both accept
+		if r.Chance(1, 4) {
+			g := &c.Gateways[0]
+			a := vsListener{Name: "nest-a", Host: vsPtr("*.foo.example.com"), Port: 8443, Proto: "HTTPS", From: "All", Cert: &vsCertRef{Name: "cert-a", NS: vsPtr("default")}}
+			b := vsListener{Name: "nest-b", Host: vsPtr("*.example.com"), Port: 8443, Proto: "HTTPS", From: "All", Cert: &vsCertRef{Name: "cert-b", NS: vsPtr("default")}}
+			var keep []vsListener
+			for _, l := range g.Listeners {
+				if l.Port != 8443 {
+					keep = append(keep, l)
+				}
+			}
+			if r.Bool() {
+				a, b = b, a
+			}
+			g.Listeners = append(keep, a, b)
+			if g.NS != "default" {
+				c.Grants = append(c.Grants, vsGrant{NS: "default", Name: "nest-grant", From: []vsGrantFrom{{Group: "gateway.networking.k8s.io", Kind: "Gateway", NS: g.NS}},
+					To: []vsGrantTo{{Group: "", Kind: "Secret"}}})
+			}
+			have := map[string]bool{}
+			for _, sct := range c.Secrets {
+				have[sct.NS+"/"+sct.Name] = true
+			}
+			for _, nme := range []string{"cert-a", "cert-b"} {
+				if !have["default/"+nme] {
+					c.Secrets = append(c.Secrets, vsSecret{NS: "default", Name: nme, OK: true})
+				}
+			}
+			c.Routes = append(c.Routes, vsRoute{NS: g.NS, Name: "nest-route", TS: 1, Parents: []vsParentRef{{Name: g.Name}}, Hosts: []string{"a.foo.example.com"},
+				Rules: []vsRule{{Backends: []vsBackend{{Name: "svc-a", Port: 80, Weight: 1}}}}})
+		}
 		w := vpRunState(c, false)
 		files := w.Files()
 		reqs := vsGenRequests(r, c, nreq)
